@@ -56,12 +56,27 @@ def satisfiable(pc):
     return str(r)
 
 
-def prove(pc, goal, timeout_ms=None, want_model=True):
+def prove(pc, goal, timeout_ms=None, want_model=True, quick=False):
     """Discharge `pc ==> goal`.  Returns (verdict, backend, ms, model_or_reason)
     verdict in {'proved', 'refuted', 'undecided'}."""
     timeout_ms = timeout_ms or Z3_TIMEOUT_MS
     quantified = any(has_quantifier(f) for f in pc) or has_quantifier(goal)
     ms = 0.0
+    if quick:
+        # one short attempt with the default strategy only
+        s = z3.Solver()
+        s.set('timeout', timeout_ms)
+        s.add(*pc)
+        s.add(z3.Not(goal))
+        t0 = time.time()
+        r = s.check()
+        ms = (time.time() - t0) * 1000
+        stats['z3_ms'] += ms
+        if r == z3.unsat:
+            return 'proved', 'z3', ms, None
+        if r == z3.sat:
+            return 'refuted', 'z3', ms, (s.model() if want_model else None)
+        return 'undecided', 'z3', ms, 'unknown (short attempt)'
     if quantified and EMATCH_FIRST_MS:
         # quantified goals: a short pure E-matching attempt first (it either proves the goal quickly or
         # gives up; it never answers sat), then the default strategy
